@@ -119,7 +119,7 @@ fn run_inner(case: &DCase, facts: &mut DFacts) -> Result<(), Outcome> {
         }
         Frame::Message(MessagePayload { headers: Some(h), message: Bytes::from(format!("item{n}")) })
     };
-    let mut do_send = |agg: &mut Agg, sinks: &Vec<MockSink>, sent: &mut Vec<(usize, Frame)>, next: &mut usize, to: u16, cx: &mut Context<'_>| -> Result<(), Outcome> {
+    let do_send = |agg: &mut Agg, sinks: &Vec<MockSink>, sent: &mut Vec<(usize, Frame)>, next: &mut usize, to: u16, cx: &mut Context<'_>| -> Result<(), Outcome> {
         match agg.poll_ready(cx) {
             Poll::Pending => Ok(()),
             Poll::Ready(Err(e)) => Err(Outcome::fail("aggregate-error", format!("poll_ready of the aggregate sink returned Err({e}) although only a member failed"))),
